@@ -78,7 +78,26 @@ def judge(ctx, c, er, m_impl, m_spec, shrinkable=True):
     return reported, dis, cl
 
 
+def _run_one(c):
+    er = VG.run_engine(c)
+    er.pop("exc", None)
+    return er
+
+
+def engine_results(cases, workers=8):
+    """engine runs in forked worker processes (each starts its own parser helper and DuckDB connections); sequential fallback"""
+    if workers > 1 and len(cases) > 8:
+        try:
+            import multiprocessing as mp
+            with mp.get_context("fork").Pool(workers) as pool:
+                return pool.map(_run_one, cases, chunksize=4)
+        except Exception as e:  # pragma: no cover
+            print(f"[C07] worker pool unavailable ({type(e).__name__}: {e}); running sequentially", flush=True)
+    return [_run_one(c) for c in cases]
+
+
 def run_cases(ctx, cases, tag, store=True):
+    ers = engine_results(cases)
     m_impl = VG.eval_model(cases, tag + "_impl", impl=True)
     two = [i for i, c in enumerate(cases) if (c["kind"] == "check" and c["imb"]) or (c["kind"] == "hier" and c.get("imode") == "dataset")]
     m_spec_l = VG.eval_model([cases[i] for i in two], tag + "_spec", impl=False) if two else []
@@ -90,7 +109,7 @@ def run_cases(ctx, cases, tag, store=True):
         for hk, hv in VG.describe(c).items():
             hist.setdefault(hk, {})
             hist[hk][hv] = hist[hk].get(hv, 0) + 1
-        er = VG.run_engine(c)
+        er = ers[i]
         if not er["ok"]:
             errs[str(er["err"])] = errs.get(str(er["err"]), 0) + 1
         ctx.count(VG.case_id(c))
